@@ -398,10 +398,38 @@ fn inert_element_to_tokens(
 
                         // render all children
                         if !self_closing {
+                            // `<textarea>` is an escapable raw text element: its
+                            // text is rendered like at runtime (see
+                            // `HtmlElement::to_html_with_buf` in tachys), i.e.
+                            // without an empty-string placeholder, entity-escaped,
+                            // and with a leading line feed doubled
+                            let textarea_text = (el_name == "textarea")
+                                .then(|| {
+                                    node.children
+                                        .iter()
+                                        .map(|child| match child {
+                                            Node::Text(text) => {
+                                                Some(text.value_string())
+                                            }
+                                            Node::RawText(raw) => {
+                                                Some(raw.to_string_best())
+                                            }
+                                            _ => None,
+                                        })
+                                        .collect::<Option<String>>()
+                                })
+                                .flatten();
                             nodes.push_front(Item::ClosingTag(el_name));
-                            let children = node.children.iter().rev();
-                            for child in children {
-                                nodes.push_front(Item::Node(child, escape));
+                            if let Some(text) = textarea_text {
+                                if text.starts_with('\n') {
+                                    html.push('\n');
+                                }
+                                html.push_str(&html_escape::encode_text(&text));
+                            } else {
+                                let children = node.children.iter().rev();
+                                for child in children {
+                                    nodes.push_front(Item::Node(child, escape));
+                                }
                             }
                         }
                     }
